@@ -8,6 +8,7 @@ mod funcs;
 mod integ;
 mod pieces;
 mod pipe;
+mod poscodec;
 mod rng;
 
 use engine::*;
